@@ -1578,8 +1578,8 @@ def b_turntable(D):
         for full in (True, False):
             def build(D_, kind=kind, full=full):
                 a, _ = make(kind, full)
-                return Ctx(a, lambda: make.__call__(kind, full)[1] if False else
-                           (TT(a['table_lla'], a['table_rph'], 0.01, 25, 30) if full else TT(a['table_lla'])))
+                return Ctx(a, lambda: (TT(a['table_lla'], a['table_rph'], 0.01, 25, 30) if full
+                                       else TT(a['table_lla'])))
             out.append(Case(pre + '__init__', f"{kind}{'' if full else ',defaults'}", build,
                             group=pre + '__init__|' + str(full)))
 
@@ -1724,4 +1724,139 @@ def b_integrator(D):
                     return Ctx(dict(pva=pva, new_pva=new), call, recv=lambda: it)
                 out.append(Case(pre + 'set_pva', f"Series({'own' if own2 else 'row'}),pva=Series({o}){w}",
                                 build_set, group=pre + 'set_pva' + w))
+    return out
+
+
+# ---------------------------------------------------------------------------------------
+# 10. builders: filters
+FILTER_EXEMPT = ('gyro_model.bias', 'gyro_model.transform', 'accel_model.bias', 'accel_model.transform')
+
+
+def _filter_configs(D):
+    cfg = [
+        dict(tag='3d,scale-misal,pos+vel+body', wa=True, sm=True, meas=('pos', 'vel', 'body'), models=True,
+             variants=('plain', 'reused', 'polluted', 'lever-list', 'int-sd', 'fortran')),
+        dict(tag='2d,bias-only,pos+vel', wa=False, sm=False, meas=('pos', 'vel'), models=True,
+             variants=('plain', 'reused', 'polluted')),
+        dict(tag='3d,default-models,no-measurements', wa=True, sm=False, meas=None, models=False,
+             variants=('plain',)),
+    ]
+    if D.rnd > 0:
+        cfg.append(dict(tag='2d,scale-misal,pos+body', wa=False, sm=True, meas=('pos', 'body'), models=True,
+                        variants=('plain', 'reused', 'polluted', 'fortran')))
+        cfg.append(dict(tag='3d,bias-only,empty-list', wa=True, sm=False, meas=(), models=True,
+                        variants=('plain', 'reused')))
+    return cfg
+
+
+def _filter_inputs(D, c, variant):
+    ms = P().measurements
+    lever = np.array([0.6, -0.3, 0.9])
+    lv = lever.tolist() if variant == 'lever-list' else lever.copy()
+    watch = {}
+    meas = None
+    if c['meas'] is not None:
+        meas = []
+        for kind in c['meas']:
+            data = D.meas(kind)
+            watch['data_' + kind] = data
+            if kind == 'pos':
+                meas.append(ms.Position(data, 1.0, lv))
+            elif kind == 'vel':
+                meas.append(ms.NedVelocity(data, 0.1, lv))
+            else:
+                meas.append(ms.BodyVelocity(data, 0.1))
+        watch['imu_to_antenna_b'] = lv
+    gm = D.est_model('gyro', c['sm']) if c['models'] else None
+    am = D.est_model('accel', c['sm']) if c['models'] else None
+    if variant == 'polluted' and gm is not None:
+        rs = np.random.RandomState(D.seed + 83)
+        gm.update_estimates(rs.normal(0, 1e-4, gm.n_states))
+        am.update_estimates(rs.normal(0, 1e-2, am.n_states))
+    sds = (3, 1, 1, 2) if variant == 'int-sd' else (3.0, 1.0, 1.0, 2.0)
+    inc = D.inc()
+    if variant == 'fortran':
+        inc = dict(_frame_forms(inc))['DataFrame(F)']
+    watch.update(increments=inc, gyro_model=gm, accel_model=am, measurements=meas, sds=sds)
+    return watch, meas, gm, am, sds, inc
+
+
+def _filter_schema(kind, c):
+    def f(res, ctx):
+        if not isinstance(res, dict):
+            return [f"expected Bunch, got {type(res).__name__}"]
+        want = ['trajectory', 'trajectory_sd', 'gyro', 'gyro_sd', 'accel', 'accel_sd', 'innovations']
+        miss = [k for k in want if k not in res]
+        if miss:
+            return [f"Bunch fields missing: {miss}"]
+        gs = states_of(dict(bias_sd=1e-5, scale_misal_sd=np.full((3, 3), 1e-3) if c['sm'] else None)) \
+            if c['models'] else []
+        as_ = states_of(dict(bias_sd=[1e-2, 2e-2, 1e-2],
+                             scale_misal_sd=[[1e-3, 0, 0], [0, 1e-3, 0], [0, 1e-4, 1e-3]] if c['sm'] else None)) \
+            if c['models'] else []
+        inc = ctx.watch['increments']
+        pr = []
+        if kind == 'feedback':
+            t0 = ctx.watch['initial_pva'].name
+            pr += sch_table(res['trajectory'], DOC_TRAJECTORY, np.concatenate([[t0], inc.index]), NA, None,
+                            'trajectory')
+        else:
+            pr += sch_table(res['trajectory'], DOC_TRAJECTORY, None, NA, None, 'trajectory')
+        pr += sch_table(res['trajectory_sd'], DOC_TRAJECTORY_ERROR, None, NA, None, 'trajectory_sd')
+        n = len(res['trajectory_sd'])
+        for k, st in (('gyro', gs), ('gyro_sd', gs), ('accel', as_), ('accel_sd', as_)):
+            pr += sch_table(res[k], st if (st or k.endswith('_sd') or kind == 'feedforward') else None,
+                            res['trajectory_sd'].index, NA, n, k)
+        names = dict(pos='Position', vel='NedVelocity', body='BodyVelocity')
+        wantk = [names[m] for m in (c['meas'] or ())]
+        if list(res['innovations'].keys()) != wantk:
+            pr.append(f"innovations keys {list(res['innovations'].keys())} != measurement class names {wantk}")
+        for k, v in res['innovations'].items():
+            if not isinstance(v, pd.DataFrame):
+                pr.append(f"innovations[{k}] is {type(v).__name__}, documented DataFrame")
+        return pr
+    return f
+
+
+@builder('filters.run_feedback_filter', 'filters.run_feedforward_filter')
+def b_filters(D):
+    fl = P().filters
+    out = []
+    for kind in ('feedback', 'feedforward'):
+        nm = f"filters.run_{kind}_filter"
+        for c in _filter_configs(D):
+            for variant in c['variants']:
+                def build(D_, c=c, variant=variant, kind=kind):
+                    watch, meas, gm, am, sds, inc = _filter_inputs(D, c, variant)
+                    if kind == 'feedback':
+                        pva0 = D.pva0()
+                        watch['initial_pva'] = pva0
+
+                        def run():
+                            return fl.run_feedback_filter(pva0, sds[0], sds[1], sds[2], sds[3], inc, gm, am, meas,
+                                                          time_step=0.5, with_altitude=c['wa'])
+                    else:
+                        nominal, comp = D.traj(), D.computed(c['wa'])
+                        if variant == 'fortran':
+                            nominal = dict(_frame_forms(nominal))['DataFrame(F)']
+                            comp = dict(_frame_forms(comp))['DataFrame(F)']
+                        watch.update(trajectory_nominal=nominal, trajectory=comp)
+
+                        def run():
+                            return fl.run_feedforward_filter(nominal, comp, sds[0], sds[1], sds[2], sds[3], gm, am,
+                                                             meas, inc if c['sm'] or variant == 'fortran' else None,
+                                                             time_step=0.5, with_altitude=c['wa'])
+                    if variant == 'reused':
+                        def call():
+                            run()                    # leaves estimates in gm / am
+                            return run()
+                    else:
+                        call = run
+                    return Ctx(watch, call, exempt=FILTER_EXEMPT)
+                exact = variant in ('plain', 'reused', 'polluted')
+                out.append(Case(nm, f"{c['tag']}|{variant}", build,
+                                group=f"{nm}|{c['tag']}|{'exact' if exact else variant}"
+                                if variant in ('plain', 'reused', 'polluted') else f"{nm}|{c['tag']}|exact",
+                                tol=0 if exact else 1e-7, group_kind='determinism' if exact else 'forms',
+                                schema=_filter_schema(kind, c), heavy=True, repeat=(variant == 'plain')))
     return out
